@@ -17,7 +17,20 @@ def consts(maxn, sizes, fails, kinds, dup=1):
                 MaxDup=str(dup), TolChunkedImapStops='TRUE')
 
 
-def main(ctx):
+def main(ctx, only=None, known=True):
+    """only: restrict the formulas (used by C01, whose statement covers the parts of map / imap jobs)"""
+    global INV, PROPS
+    inv0, props0 = INV, PROPS
+    if only is not None:
+        INV = [f for f in INV if f in only]
+        PROPS = [f for f in PROPS if f in only]
+    try:
+        _main(ctx, known)
+    finally:
+        INV, PROPS = inv0, props0
+
+
+def _main(ctx, known):
     thorough = ctx.tier == 'thorough'
     if thorough:
         units = [('map', consts(5, [1, 2], 2, ['map'])),
@@ -60,5 +73,5 @@ def main(ctx):
                         'start': {k: behs[0][0]['from'][k] for k in ('n', 'c', 'kind', 'fails')}})
         recipe.conform(ctx, 'mapasm-walks', behs, MapAdapter, mon_module='MapAsmMonitor',
                        mon_invariants=INV, mon_properties=PROPS, mon_constants=walks,
-                       monitor_all=True, known=KNOWN)
+                       monitor_all=True, known=KNOWN if known else ())
     ctx.exhaustive = True
